@@ -65,6 +65,9 @@ def import_kappadata():
             sys.path.insert(1, vendor)
         import torch
         torch.set_num_threads(1)
+        # the seams that replace process-wide facilities (thread pools, OS entropy, ...) must be in place BEFORE the library
+        # is imported: `from concurrent.futures import ThreadPoolExecutor` binds the class at import time
+        from . import simproc  # noqa: F401
         import kappadata
         got = os.path.realpath(kappadata.__file__)
         if not got.startswith(os.path.realpath(repo) + os.sep):
